@@ -10,6 +10,7 @@
 import Lattigo.Proofs.RGSW
 import Lattigo.Proofs.RGSW32
 import Lattigo.Proofs.BlindRotPhase
+import Lattigo.Proofs.BlindRotTable
 
 namespace Lattigo.Props.C20
 open Lattigo Lattigo.RGSW
@@ -34,29 +35,6 @@ theorem rgsw_rows_phase (s g : α) (pgs : List α) (smp0 smp1 : List (α × α))
 
 example : ((encrypt encZero (3 : ℤ) 5 [7, 11] [(1, 2), (4, -1)] [(0, 1), (2, 2)]).v0.map
     fun r => phase r 3) = [2 + 7 * 5, -1 + 11 * 5] := by decide
-
-/-- `rgsw_rows_phase` for the branch WITHOUT auxiliary modulus, as coded: the error of every row is
-    `ρ e` (`ρ` = multiplication by `2^{-64} mod q_i`), not `e`. -/
-theorem rgsw_rows_phase_noP (ρ : α → α) (s g : α) (pgs : List α) (smp0 smp1 : List (α × α)) :
-    ((encrypt (encZeroNoP ρ) s g pgs smp0 smp1).v0.map fun r => phase r s) =
-        List.zipWith (fun pg e => e + pg * g) pgs (smp0.map fun ae => ρ ae.2) ∧
-    ((encrypt (encZeroNoP ρ) s g pgs smp0 smp1).v1.map fun r => phase r s) =
-        List.zipWith (fun pg e => e + pg * g * s) pgs (smp1.map fun ae => ρ ae.2) := by
-  have hn : ∀ smp : List (α × α), rowNoise (encZeroNoP ρ) s smp = smp.map fun ae => ρ ae.2 := by
-    intro smp; simp only [rowNoise, phase_encZeroNoP]
-  constructor
-  · simp only [encrypt]; rw [rows0_phase, hn]
-  · simp only [encrypt]; rw [rows1_phase, hn]
-
-/-- The factor is not harmless: in the executable instance, for the blind-rotation test modulus
-    `q = 0x7fff801` and the error polynomial `e = 1`, the row error `mulRinv e` has the coefficient
-    `2^{-64} mod q = 33172874 > 2^24` (the honest bound is 20): the row does not decrypt
-    (`rgsw.Encryptor.EncryptZero`, branch `LevelP() == -1`; probes `rgsw_rows_noise`,
-    `extprod_decrypts` with key `rgsw-enc-nop-montgomery`). -/
-theorem rgsw_enc_noP_counterexample :
-    (mulRinv (RPoly.ofInts [134215681] [1, 0, 0, 0])).c = [[33172874, 0, 0, 0]] ∧
-      33172874 > 2 ^ 24 := by
-  decide +kernel
 
 /-! ## External product -/
 
@@ -123,19 +101,14 @@ example : phase (extProd (fun x : ℤ => x) 0 [2, 1] [0, 3]
     = 5 * phase ((6 : ℤ), 12) 3 + 1 * (((2 * 2 + 1 * -1) + (0 * 1 + 3 * 2)) - (0 + 0 * 3)) := by
   decide
 
-/-- the same identity for the rows of the branch without auxiliary modulus (no division): the noise
-    term is `Σ d_k · ρ e_k` -/
-theorem extprod_phase_noP (ρ : α → α) (s g : α) (pgs : List α) (smp0 smp1 : List (α × α))
+/-- without auxiliary modulus there is no division: `phase(out) = g·phase(ct) + Σ d e` -/
+theorem extprod_phase_noP (s g : α) (pgs : List α) (smp0 smp1 : List (α × α))
     (d0 d1 : List α) (c0 c1 : α)
     (h0 : pgs.length = smp0.length) (h1 : pgs.length = smp1.length)
     (hrec0 : wsum d0 pgs = c0) (hrec1 : wsum d1 pgs = c1) :
-    phase (extProdLazy 0 d0 d1 (encrypt (encZeroNoP ρ) s g pgs smp0 smp1)) s =
-      g * phase (c0, c1) s
-        + (wsum d0 (smp0.map fun ae => ρ ae.2) + wsum d1 (smp1.map fun ae => ρ ae.2)) := by
-  rw [extProdLazy_phase (encZeroNoP ρ) s g pgs smp0 smp1 d0 d1 h0 h1, hrec0, hrec1]
-  have hn : ∀ smp : List (α × α), rowNoise (encZeroNoP ρ) s smp = smp.map fun ae => ρ ae.2 := by
-    intro smp; simp only [rowNoise, phase_encZeroNoP]
-  rw [hn, hn]; rfl
+    phase (extProdLazy 0 d0 d1 (encrypt encZero s g pgs smp0 smp1)) s =
+      g * phase (c0, c1) s + (wsum d0 (smp0.map Prod.snd) + wsum d1 (smp1.map Prod.snd)) :=
+  extprod_phase s g pgs smp0 smp1 d0 d1 c0 c1 h0 h1 hrec0 hrec1
 
 /-! ## Homomorphisms -/
 
@@ -202,12 +175,27 @@ example : slot32 134215681 13887429451840489473 [5, 7] [11, 13] = 11475088 ∧
     134215681 * 13887429451840489473 % W = 1 ∧ 11475088 * W % 134215681 = (5 * 11 + 7 * 13) % 134215681 := by
   decide +kernel
 
-/-- `path_eq` fails without the hypothesis: `q = 536870657 < 2^29`, digit width 1
+/-- `path_eq` under the guard of the code (fix C20-4): when `acc32BitFits(q, d)` holds, for every slot with at
+    most `2d` terms, stored values `≤ q − 1` and lazily transformed digits `≤ 6q − 2` (the documented range
+    of `NTTLazy`), the 32-bit path returns the general path's value.  No separate overflow hypothesis. -/
+theorem path_eq_guarded (q mrc d : Nat) (rs cs : List Nat) (hq1 : 1 < q) (hq : q < W)
+    (hodd : Nat.gcd q W = 1) (hmrc : q * mrc % W = 1) (hfit : acc32Fits q d = true)
+    (hlen : rs.length ≤ 2 * d) (hr : ∀ r ∈ rs, r ≤ q - 1) (hc : ∀ c ∈ cs, c ≤ 6 * q - 2)
+    (y : Nat) (hy : y < q) (hyspec : y * W % q = sum32 rs cs % q) :
+    slot32 q mrc rs cs = y :=
+  path_eq q mrc rs cs hq1 hq hodd hmrc (acc32Fits_no_wrap q d hfit rs cs hlen hr hc) y hy hyspec
+
+/-- non-vacuity: the blind-rotation test modulus `0x7fff801` with `w = 7` (`d = 4`) passes the guard, a 29-bit
+    modulus with `w = 1` (`d = 29`) or `w = 4` (`d = 8`) does not, with `w = 6` (`d = 5`) it does -/
+example : acc32Fits 134215681 4 = true ∧ acc32Fits 536870657 29 = false ∧
+    acc32Fits 536870657 8 = false ∧ acc32Fits 536870657 5 = true := by decide +kernel
+
+/-- what the guard excludes (`path_eq` fails without its hypothesis): `q = 536870657 < 2^29`, digit width 1
     (`2·29 = 58` rows), every stored value `q − 1` and every transformed digit `2q+1` (a legal output
     of `NTTLazy`, whose range is `[0, 6q−2]`): the exact sum `58·(q−1)·(2q+1) ≈ 2^64.86` wraps, and the
-    32-bit path returns `413437105` where the general path returns `y = 413437106`.  The guard of the code,
-    `q < 2^29` ("log(Q)·(Q−1)² < 2^64"), counts neither the two gadget ciphertexts nor the lazy
-    range. -/
+    accumulator + `IMForm` returns `413437105` where the general path returns `y = 413437106`.  The previous
+    guard, `q < 2^29` ("log(Q)·(Q−1)² < 2^64"), counted neither the two gadget ciphertexts nor the lazy range
+    and let this through (probe `path_eq_32` on the unpatched code). -/
 theorem path_eq_counterexample :
     let q := 536870657
     let mrc := 7241964951080861953
@@ -215,35 +203,19 @@ theorem path_eq_counterexample :
     let cs := List.replicate 58 (2 * q + 1)
     q / 2 ^ 29 = 0 ∧ q * mrc % W = 1 ∧ ¬ sum32 rs cs < W ∧
       (413437106 * W % q = sum32 rs cs % q ∧ 413437106 < q) ∧
-      slot32 q mrc rs cs ≠ 413437106 := by
+      slot32 q mrc rs cs ≠ 413437106 ∧ acc32Fits q 29 = false := by
   decide +kernel
 
-/-- the 32-bit path with `BaseTwoDecomposition = 0`: `mask = (1 << 0) − 1 = 0`, every digit vanishes and the
-    product is `(0, 0)` whatever the inputs (here `q = 97`, the trivial encryption `(5 + 3X, 0)` and a
-    noise-free RGSW encryption of `1`); the general path would return the ciphertext itself. -/
-theorem extprod32_zero_mask_counterexample :
+/-- `BaseTwoDecomposition = 0` on the 32-bit path (fix C20-3): the single digit is the whole coefficient
+    (`q = 97`, the trivial encryption `(5 + 3X, 0)` times a noise-free RGSW encryption of `1` is the
+    ciphertext itself; it was `(0, 0)` with the zero mask). -/
+example :
     let p : Par := { qsQ := [97], qsP := [], n := 2, w := 0 }
     let one : RPoly := { qs := [97], c := [[1, 0]] }
     let zero : RPoly := RPoly.zero [97] 2
-    let rg : Ct RPoly := encryptR p true zero one [(zero, zero)] [(zero, zero)]
+    let rg : Ct RPoly := encryptR p zero one [(zero, zero)] [(zero, zero)]
     let ct : RPoly × RPoly := ({ qs := [97], c := [[5, 3]] }, zero)
-    fast32 p = true ∧ extProdR p ct rg = (zero, zero) ∧ ct ≠ (zero, zero) := by
-  decide +kernel
-
-/-- out-of-place external product with two auxiliary primes, AS CODED: the result depends on the previous
-    content of the output (`c0QP.Q = opOut.Value[0]` is what `ModDownQPtoQNTT` divides, the inner product
-    sits in `BuffQP[1].Q`).  `Q = 97`, `P = 101·103`, same inputs, two different `old` contents. -/
-theorem extprod_oop_counterexample :
-    let p : Par := { qsQ := [97], qsP := [101, 103], n := 2, w := 0 }
-    let qs := [97, 101, 103]
-    let zero : RPoly := RPoly.zero qs 2
-    let one : RPoly := { qs := qs, c := [[1, 0], [1, 0], [1, 0]] }
-    let rg : Ct RPoly := encryptR p false zero one [(zero, zero)] [(zero, zero)]
-    let ct : RPoly × RPoly := ({ qs := [97], c := [[5, 3]] }, RPoly.zero [97] 2)
-    let oldA : RPoly × RPoly := (RPoly.zero [97] 2, RPoly.zero [97] 2)
-    let oldB : RPoly × RPoly := ({ qs := [97], c := [[1, 0]] }, RPoly.zero [97] 2)
-    extProdR p ct rg = ct ∧
-    extProdOutOfPlaceR p ct rg oldA ≠ extProdOutOfPlaceR p ct rg oldB := by
+    fast32 p = true ∧ extProdR p ct rg = ct := by
   decide +kernel
 
 /-! ## Blind rotation -/
@@ -254,8 +226,9 @@ open Lattigo.RGSW.BlindRot
     naturals), every secret `s` and every `b`: the operations `BlindRotateCore` performs (`coreSchedule`:
     classes by discrete log of 5 and sign, window 10, the `v` of the negative loop carried into the
     positive one) map the exponents `(t, u) = (2N−5, (2N−5)·b)` of the initial accumulator `φ_{−5}(F·X^b)`
-    to `t ≡ 1`, `u ≡ b + Σ_j eff(a_j)·s_j (mod 2N)`, where `eff(a_j) = ±5^{dlog a_j}` is the value the table
-    of `getGaloisElementInverseMap` assigns to the coefficient. -/
+    to `t ≡ 1`, `u ≡ b + Σ_j eff(a_j)·s_j (mod 2N)`, where `eff(a_j)` is the value the table of
+    `getGaloisElementInverseMap` assigns to the coefficient (`±5^{dlog a_j}`, `−1` for the class `2N`, `0` for a
+    skipped zero coefficient); `blindrot_exponent_mask` identifies it with `a_j`. -/
 theorem blindrot_exponent (k : Nat) (hk : 1 ≤ k) (a : List Nat) (sI : Nat → Int) (b : Nat) :
     let N := 2 ^ (k + 1)
     let r := runExp sI (coreSchedule N a) (initExp N b)
@@ -269,27 +242,39 @@ theorem blindrot_exponent (k : Nat) (hk : 1 ≤ k) (a : List Nat) (sI : Nat → 
 example : slotExp 16 [5, 27, 1, 13] 3 [1, -1, 0, 1] = (1, 26) ∧ ((3 + 5 * 1 + 27 * (-1) + 1 * 0 + 13 * 1 : Int) % 32 = 26) := by
   decide +kernel
 
-/-- a coefficient the table holds as `+5^i`, or as `−5^i` with `i > 0`, is treated as itself … -/
-theorem eff_of_table (N x : Nat) (kv : Nat × Int) (hmem : kv ∈ dlogTable N) (hx : kv.1 = x)
-    (hd : dlog N x = kv.2) (hne : x ≠ 2 * N - 1) (hN : 0 < N) : effZ N x = (x : ZMod (2 * N)) :=
-  effZ_of_table N x kv hmem hx hd (Or.inl hne) hN
+/-- every odd mask coefficient is treated as itself, zero as zero (`N = 2^(k+1) ≥ 4`): `±5^i`, `i < N/2`,
+    exhaust the odd residues modulo `2N`, and `2N − 1 = −5^0` is filed under its own class (fix C20-5) -/
+theorem eff_spec (k : Nat) (hk : 1 ≤ k) (x : Nat) (hx : x < 2 * 2 ^ (k + 1)) (h : x % 2 = 1 ∨ x = 0) :
+    effZ (2 ^ (k + 1)) x = (x : ZMod (2 * 2 ^ (k + 1))) := by
+  rcases h with h | h
+  · exact effZ_odd k hk x hx h
+  · subst h; simp [effZ_zero]
 
-/-- … and for `N = 16, 32, 64` (the ring degrees of the correspondence runs; a `decide`, i.e. a test of the
-    table, not a proof for all `N`) every odd residue except `2N − 1` is treated as itself. -/
-theorem eff_table_16_32_64 : ∀ N ∈ [16, 32, 64], ∀ x ∈ List.range (2 * N),
-    x % 2 = 1 → x ≠ 2 * N - 1 → (eff N x % (2 * N : Nat)).toNat = x := by
-  decide +kernel
+/-- `blindrot_exponent` at full strength: for every mask as `modSwitchRLWETo2NLvl(…, makeOdd)` produces it
+    (entries `< 2N`, odd or zero) the final exponent is `b + ⟨a, s⟩ (mod 2N)` and the automorphism index is 1:
+    the accumulator decrypts to `F·X^{b + ⟨a,s⟩}`. -/
+theorem blindrot_exponent_mask (k : Nat) (hk : 1 ≤ k) (a : List Nat) (sI : Nat → Int) (b : Nat)
+    (ha : ∀ j, j < a.length → a.getD j 0 < 2 * 2 ^ (k + 1) ∧ (a.getD j 0 % 2 = 1 ∨ a.getD j 0 = 0)) :
+    let N := 2 ^ (k + 1)
+    let r := runExp sI (coreSchedule N a) (initExp N b)
+    ((r.1 : Int) : ZMod (2 * N)) = 1 ∧
+    ((r.2 : Int) : ZMod (2 * N)) =
+      (b : ZMod (2 * N)) +
+        ((List.range a.length).map fun j => ((a.getD j 0 : Nat) : ZMod (2 * N)) * ((sI j : Int) : ZMod (2 * N))).sum := by
+  intro N r
+  have h := blindrot_exponent k hk a sI b
+  refine ⟨h.1, ?_⟩
+  rw [h.2]
+  congr 2
+  apply List.map_congr_left
+  intro j hj
+  have hj' := ha j (List.mem_range.mp hj)
+  rw [eff_spec k hk _ hj'.1 hj'.2]
 
-/-- `blindrot_exponent_counterexample`: the coefficient `2N − 1 = −5^0` is in the class of `+1`
-    (`GaloisGenDiscreteLog[2N − pow] = −i` with `i = 0`; `BlindRotateCore` looks the class up under the key
-    `2N`, which the table never produces), and a zero coefficient (absent from the table, Go returns `0`)
-    as well.  `N = 16`: the one-coefficient mask `[31]` with `s_0 = 1`, `b = 3` ends at exponent `4`, not
-    `3 + 31·1 ≡ 2`; the mask `[0]` ends at `4`, not `3`.  (Probe `blindrot_exponent`, keys
-    `blindrot-dlog-minus-one`, `blindrot-dlog-zero`.) -/
-theorem blindrot_exponent_counterexample :
-    dlog 16 31 = 0 ∧ eff 16 31 = 1 ∧ dlog 1024 2047 = 0 ∧ eff 1024 2047 = 1 ∧ eff 16 0 = 1 ∧
-    slotExp 16 [31] 3 [1] = (1, 4) ∧ (3 + 31 * 1) % 32 = 2 ∧
-    slotExp 16 [0] 3 [1] = (1, 4) := by
+/-- non-vacuity / regression of the two fixed classes: `N = 16`, a mask coefficient `31 = −1` now rotates by
+    `−s`, a zero coefficient by nothing (they rotated by `+s` before fix C20-5) -/
+example : slotExp 16 [31] 3 [1] = (1, 2) ∧ slotExp 16 [0] 3 [1] = (1, 3) ∧
+    dlog 16 31 = 32 ∧ eff 16 31 = -1 ∧ eff 1024 2047 = -1 ∧ eff 16 0 = 0 := by
   decide +kernel
 
 /-- `blindrot_invariant` (phases).  In any commutative ring with monomials `X^u` (`u ∈ ZMod (2N)`) and
@@ -344,8 +329,6 @@ example : stepOk 16 4 (Step.aut (galEl 16 3)) := Or.inl ⟨3, by decide, by deci
 end Lattigo.Props.C20
 
 #print axioms Lattigo.Props.C20.rgsw_rows_phase
-#print axioms Lattigo.Props.C20.rgsw_rows_phase_noP
-#print axioms Lattigo.Props.C20.rgsw_enc_noP_counterexample
 #print axioms Lattigo.Props.C20.extprod_phase
 #print axioms Lattigo.Props.C20.extprod_phase_div
 #print axioms Lattigo.Props.C20.extprod_phase_noP
@@ -354,13 +337,11 @@ end Lattigo.Props.C20
 #print axioms Lattigo.Props.C20.rgsw_mulXminus1_add
 #print axioms Lattigo.Props.C20.rgsw_addPlain
 #print axioms Lattigo.Props.C20.path_eq
+#print axioms Lattigo.Props.C20.path_eq_guarded
 #print axioms Lattigo.Props.C20.path_eq_counterexample
-#print axioms Lattigo.Props.C20.extprod32_zero_mask_counterexample
-#print axioms Lattigo.Props.C20.extprod_oop_counterexample
 #print axioms Lattigo.Props.C20.blindrot_exponent
-#print axioms Lattigo.Props.C20.eff_of_table
-#print axioms Lattigo.Props.C20.eff_table_16_32_64
-#print axioms Lattigo.Props.C20.blindrot_exponent_counterexample
+#print axioms Lattigo.Props.C20.eff_spec
+#print axioms Lattigo.Props.C20.blindrot_exponent_mask
 #print axioms Lattigo.Props.C20.blindrot_invariant
 #print axioms Lattigo.Props.C20.blindrot_lookup
 #print axioms Lattigo.Props.C20.blindrot_lookup_endpoint
